@@ -509,7 +509,7 @@ type Access struct {
 	Write bool
 	Instr ssa.Instruction
 	Fn    *ssa.Function
-	Held  LockSet // local ∪ must-entry
+	Held  LockSet   // local ∪ must-entry
 	Base  ssa.Value // the struct (pointer) whose field is accessed
 	Whole bool      // part of a whole-struct copy
 }
